@@ -601,3 +601,50 @@ def wbuf_total(ctx):
     if not ok:
         ctx.violation("wbuf/partial", ctx.where(name), "WritableBuffer::write must append the whole chunk unconditionally and report its length; returns `%s`" % r)
     ctx.covered("WritableBuffer::write is total and appends the whole chunk", 2, distinct_keys=["rejects", "partial"])
+
+
+
+def pass_ignores_table(ctx):
+    """the ignore verdict of visit_dir (`pass_ignores`) read off the source by the finite interpreter for every setting of
+    (gitignore on, hgignore on, dockerignore on, git says ignored, hg filter matches, docker filter matches, repository
+    present).  Returns (table {(ag, ah, ad, mg, mh, md, repo): verdict}, paths asked per tool, error)"""
+    import interp
+    import itertools
+    name = "searcher::Searcher::visit_dir"
+    hir = ctx.anchor_hir(name)
+    pi = [x for x in walk(hir) if x["k"] == "Let" and x["pat"].get("name") == "pass_ignores"]
+    if len(pi) != 1:
+        return None, None, "definition of pass_ignores not found"
+    has_git = any(c["k"] == "MCall" and c["m"] == "is_path_ignored" for c in walk_exprs(pi[0]["init"]))
+    tbl = {}
+    asked = {"git": set(), "hg": set(), "docker": set()}
+    for ag, ah, ad, mg, mh, md, repo in itertools.product([False, True], repeat=7):
+        if not has_git and (mg or repo):
+            continue
+
+        def call(node, recv, args, it, env, mg=mg, mh=mh, md=md):
+            callee = str(node.get("callee", ""))
+            m = node.get("m")
+            if callee.endswith("canonical_path"):
+                return (interp.V("Result::Ok", ["<canonical>"]),)
+            if m == "is_path_ignored":
+                asked["git"].add(str(args[0]) if args else "?")
+                return (interp.V("Result::Ok", [mg]),)
+            if callee.endswith("matches_hgignore_filter"):
+                asked["hg"].add((str(args[0]), str(args[1])) if len(args) > 1 else "?")
+                return (mh,)
+            if callee.endswith("matches_dockerignore_filter"):
+                asked["docker"].add((str(args[0]), str(args[1])) if len(args) > 1 else "?")
+                return (md,)
+            if m in ("to_string_lossy", "as_ref", "as_path", "to_path_buf", "as_str", "to_str", "clone", "display"):
+                return (recv,)
+            return None
+        by = {"apply_gitignore": ag, "apply_hgignore": ah, "apply_dockerignore": ad, "path": "<walked>",
+              "git_repository": interp.some({"repo": True}) if repo else interp.NONE,
+              "self": {"hgignore_filters": "<hg filters>", "dockerignore_filters": "<docker filters>"}}
+        try:
+            v = interp.eval_in(hir, pi[0]["init"], by, call=call)
+        except interp.Undecided as e:
+            return None, None, "cannot evaluate the ignore verdict: %s" % e
+        tbl[(ag, ah, ad, mg, mh, md, repo)] = v
+    return (tbl, asked, None), has_git, None
